@@ -177,6 +177,11 @@ func opEnc(args []string) string {
 	if !acc {
 		return "err"
 	}
+	if back, ok := decodeWith(coding.DataCoding(atoi(args[0])), out); ok && back == string(rs) {
+		if m := parseMismatch(coding.DataCoding(atoi(args[0])), out, string(rs)); m != "" {
+			return "ok " + canon.Hex(out) + m
+		}
+	}
 	return "ok " + canon.Hex(out)
 }
 
@@ -213,7 +218,21 @@ func opMbRT(args []string) string {
 	if !ok || back != string(rs) {
 		return "ok " + canon.Hex(out) + fmt.Sprintf(" !! C17:multi-octet-round-trip coding=%d", c)
 	}
+	if m := parseMismatch(c, out, string(rs)); m != "" {
+		return "ok " + canon.Hex(out) + m
+	}
 	return "ok " + canon.Hex(out)
+}
+
+// parseMismatch: the library's own decoding entry point for a stored message (pdu.ShortMessage.Parse, which decodes by
+// the data_coding label) must give what the coding's decoder gives.
+func parseMismatch(c coding.DataCoding, octets []byte, text string) string {
+	sm := pdu.ShortMessage{DataCoding: c, Message: octets}
+	got, err := sm.Parse()
+	if err != nil || got != text {
+		return fmt.Sprintf(" !! C17:parse-differs-from-decoder coding=%d", c)
+	}
+	return ""
 }
 
 // independent references, written from the standards
@@ -416,6 +435,18 @@ func genC17(r *gen.Rng, tier string, emit func(string)) {
 	for c := 0; c < 256; c++ {
 		emit(fmt.Sprintf("avail %d", c))
 	}
+	// texts whose encoding ends in a zero octet (a trailing U+0000; a UCS-2 character whose low octet is 00)
+	for _, dc := range []int{1, 3, 6, 7, 5, 10, 13, 14} {
+		op := "enc"
+		if dc == 5 || dc == 10 || dc == 13 || dc == 14 {
+			op = "mbrt"
+		}
+		emit(fmt.Sprintf("%s %d 65,66,0", op, dc))
+		emit(fmt.Sprintf("%s %d 0", op, dc))
+	}
+	emit("enc 8 65,256")
+	emit("enc 8 12288")
+	emit("enc 8 65,0")
 	n := scale(tier, 3000, 60000)
 	single := []int{1, 3, 6, 7}
 	for i := 0; i < n; i++ {
